@@ -2,7 +2,12 @@
 
 package cache
 
-import "github.com/thought-machine/please/src/core"
+import (
+	"sync/atomic"
+	"unsafe"
+
+	"github.com/thought-machine/please/src/core"
+)
 
 // VerifDirCacheC12 is the real directory cache, reached from the C12 / C14 checks.
 type VerifDirCacheC12 = dirCache
@@ -19,4 +24,15 @@ func VerifMarkC14(c *dirCache, path string, size uint64) { c.markDir(path, size)
 // VerifPathC14 returns the final and the temporary (in-flight) path of an entry.
 func VerifPathC14(c *dirCache, target *core.BuildTarget, key []byte) (final, tmp string) {
 	return c.getPath(target, key, ""), c.getFullPath(target, key, "", "=")
+}
+
+// VerifLockC12 / VerifUnlockC12 hold the dirCache's own mutex from the harness: a Retrieve then stops inside markDir,
+// i.e. after it has seen that the entry exists and before it opens it - a pause point the file-system seam cannot give.
+func VerifLockC12(c *dirCache)   { c.mutex.Lock() }
+func VerifUnlockC12(c *dirCache) { c.mutex.Unlock() }
+
+// VerifWaitersC12 reports whether some goroutine is parked on the dirCache's mutex (sync.Mutex keeps the number of
+// waiters in the upper bits of its first word; mutexWaiterShift = 3).
+func VerifWaitersC12(c *dirCache) bool {
+	return atomic.LoadInt32((*int32)(unsafe.Pointer(&c.mutex)))>>3 > 0
 }
